@@ -317,7 +317,9 @@ def geometry(stores, load):
 
 # ---------------------------------------------------------------------------
 def rep_cases(tier='quick'):
-    for op, hx in (('stosb', 'f3aa'), ('movsb', 'f3a4'), ('stosd', 'f3ab'), ('repe cmpsb', 'f3a6'), ('repne scasb', 'f2ae')):
+    # F2 in front of a string instruction without termination test repeats exactly like F3 (the decoder prints '[0xf2] stosb')
+    for op, hx in (('stosb', 'f3aa'), ('movsb', 'f3a4'), ('stosd', 'f3ab'), ('repe cmpsb', 'f3a6'), ('repne scasb', 'f2ae'),
+                   ('lodsb', 'f3ac'), ('stosb/f2', 'f2aa'), ('movsb/f2', 'f2a4'), ('stosd/f2', 'f2ab'), ('lodsb/f2', 'f2ac')):
         for n in (0, 1, 2, 3):
             for df in (0, 1):
                 for pre in (0, 1, 2):
@@ -408,7 +410,7 @@ def shard(s, ns, tier, seed):
         for i, (base, stores, load) in enumerate(storeload_space(tier)):
             if (i // 64) % ns != s:
                 continue
-            r = storeload_case(ctx, part, base, stores, load)
+            r = core.isolated(storeload_case, ctx, None, base, stores, load)      # each history in a pristine child
             part.n += 1
             part.transitions += len(stores) + 1
             part.traces += 1
@@ -418,6 +420,15 @@ def shard(s, ns, tier, seed):
                     part.samples.append({'stores (offset, bits)': [list(x) for x in stores], 'load': list(load), 'base': base})
                 part.outcomes.add(core.h64(geometry(stores, load)))
             else:
+                # a failing 3-store history is attributed to a failing 2-store sub-history when one exists (the minimal
+                # failing history names the defect; the rest of the 3-store space would only repeat it in other layouts)
+                if len(stores) == 3:
+                    for drop in (0, 1, 2):
+                        sub = tuple(x for k_, x in enumerate(stores) if k_ != drop)
+                        r2 = core.isolated(storeload_case, ctx, None, base, sub, load)
+                        if r2 is not None:
+                            stores, r = sub, r2
+                            break
                 part.violation('storeload base=%s %s fail=%s' % (base, geometry(stores, load), r[0]),
                                'stores %s then load %s (offset, bits; base %s): %s' % (list(stores), load, base, r[1]),
                                {'kind': 'storeload', 'base': base, 'stores': [list(x) for x in stores], 'load': list(load)}, size=len(stores) * 100 + sum(o for o, w in stores) + load[0])
